@@ -226,7 +226,7 @@ def show(t):
         return 'nest(%d, %s)' % (t[1], show(t[2]))
     if k == 'fc':
         return 'flat_choice(when_broken=%s, when_flat=%s)' % (show(t[1]), show(t[2]))
-    return '%s(%s)' % ({'grp': 'group', 'ab': 'always_break', 'ann': 'annotate'}[k], show(t[1]))
+    return '%s(%s)' % ({'grp': 'group', 'ab': 'always_break', 'ann': 'annotate', 'align': 'align'}[k], show(t[1]))
 
 
 def scenarios(tier, seed):
